@@ -26,7 +26,7 @@ func init() {
 	runner.Register(&runner.Check{
 		ID:          "C01",
 		Level:       "exploration",
-		Rule:        "PRNG-generated sequences of transfer/transferX/mint/burn/lock/newEpoch (direct, via a holder contract, via Netmap fan-out) by owners, strangers, contracts, Alphabet, Majority and single members on committees of 1/3/4/7, amounts from a pool around {-2^63,-balance,-1,0,1,balance-1,balance,balance+1,2^63,10^30}, 1-3 transactions per block; after every block a raw scan of the Balance storage and a shadow ledger rebuilt from Transfer notifications are compared. A case is one transaction; distinct = (method, signer class, scopes/address shape, amount class, outcome); non-trivial = it changed storage, faulted or was refused.",
+		Rule:        "PRNG-generated sequences of transfer/transferX/mint/burn/lock/newEpoch (direct, via a holder contract, via Netmap fan-out) by owners, strangers, contracts, Alphabet, Majority and single members on committees of 1/3/4/7, amounts from a pool around {-2^63,-balance,-1,0,1,balance-1,balance,balance+1,2^63,10^30}, 1-3 transactions per block; after every block a raw scan of the Balance storage and a shadow ledger rebuilt from Transfer notifications are compared. A case is one transaction; distinct = (method, signer class, scopes/address shape, amount class, outcome); non-trivial = it changed storage, faulted or was refused. One Alphabet operation in six carries details of 0, 32, 255, 256, 600, 899-901, 930 or 1100 bytes (near and past the notification limit).",
 		Assumptions: []string{"neo-go v0.107.0 VM, ledger and native contracts are the trusted base", "contracts are compiled at check time from /repo/contracts with the module-cache compiler", "Alphabet-only methods receive 20-byte addresses and lock targets are fresh (property quantifier)"},
 		Batches:     tierN(256, 4096),
 		Helpers:     []string{"holder"},
